@@ -6,3 +6,4 @@ CONSTANTS
   MaxLineLen = 4
   MaxW = 3
   MaxH = 2
+  MidResize = TRUE
